@@ -421,7 +421,7 @@ func (s *reportSim) Run() []bool {
 	for s.cycleCount < s.maxCycles {
 		aliveCount := s.RunCycle()
 
-		if nWarriors == 1 && aliveCount == 0 {
+		if aliveCount == 0 {
 			break
 		} else if nWarriors > 1 && aliveCount == 1 {
 			break
